@@ -201,6 +201,37 @@ theorem C01_e2e_run_rows (S : Setup) (w0 : World) (h0 : Squeeth.Once w0.sq) (hd 
   obtain ⟨pres, hlen, hv, hsplit⟩ := C01_run_rows NumCtx.exact (marketsValuation S) w0 cfg trigs sc h hidx
   exact ⟨pres, hlen, hv, fun pre _ => ⟨C01_e2e_once_along_the_run S w0 h0 pre, C01_e2e_dict_along_the_run S w0 hd pre⟩, hsplit⟩
 
+theorem Core.e2e_zip_get {α β γ : Type} (f : α → β → γ) : ∀ (as : List α) (bs : List β) (k : Nat) (a : α) (b : β),
+    as[k]? = some a → bs[k]? = some b → (List.zipWith f as bs)[k]? = some (f a b)
+  | [], _, _, _, _, h, _ => by simp at h
+  | _ :: _, [], _, _, _, _, h => by simp at h
+  | x :: as, y :: bs, 0, a, b, ha, hb => by
+    simp only [List.getElem?_cons_zero, Option.some.injEq] at ha hb
+    simp [ha, hb]
+  | x :: as, y :: bs, k + 1, a, b, ha, hb => by
+    simp only [List.getElem?_cons_succ] at ha hb
+    simp only [List.zipWith_cons_cons, List.getElem?_cons_succ]
+    exact Core.e2e_zip_get f as bs k a b ha hb
+
+/-- **C01 end to end, row k of a run, by index.**  Row k of the account history of a run that ends normally IS `get_account_status` at
+    bar k's price row of the world the six market models are in after exactly the calls `pre` before it; that world satisfies the count
+    invariant and has dict-shaped containers, so `C01_e2e_row_value` applies to it with no hypotheses left but "the balance calls return"
+    and "the prices are there" (`C01_e2e_row_value_after_calls` with this `pre`). -/
+theorem C01_e2e_run_row_k (S : Setup) (w0 : World) (h0 : Squeeth.Once w0.sq) (hd : Squeeth.Dict w0.sq) (cfg : Cfg) (trigs : List Trig)
+    (sc : Script) (h : (run cfg trigs sc).err = none) (hidx : (barIndex cfg).Pairwise (· < ·)) :
+    ∃ pres : List (List Ev), pres.length = (barIndex cfg).length ∧
+      ∀ (k : Nat) pre ts, pres[k]? = some pre → (barIndex cfg)[k]? = some ts →
+        (valuedRows NumCtx.exact (marketsValuation S) (run cfg trigs sc).trace w0)[k]? =
+          some (ts, acctRow NumCtx.exact (marketsValuation S) (priceRow cfg ts) (worldAfter (marketsValuation S) pre w0)) ∧
+        Squeeth.Once (worldAfter (marketsValuation S) pre w0).sq ∧ Squeeth.Dict (worldAfter (marketsValuation S) pre w0).sq ∧
+        ∃ post, (run cfg trigs sc).trace = pre ++ Ev.row ts (priceRow cfg ts) :: post ∧
+          (∀ e ∈ pre, BeforeRow ts e) ∧ (∀ e ∈ post, AfterRow ts e) := by
+  obtain ⟨pres, hlen, hv, hinv, hsplit⟩ := C01_e2e_run_rows S w0 h0 hd cfg trigs sc h hidx
+  refine ⟨pres, hlen, fun k pre ts hpre hts => ⟨?_, (hinv pre (List.mem_of_getElem? hpre)).1, (hinv pre (List.mem_of_getElem? hpre)).2,
+    hsplit k pre ts hpre hts⟩⟩
+  rw [hv]
+  exact Core.e2e_zip_get _ _ _ k ts pre hts hpre
+
 /-- **C01 end to end, the value of the row after any calls of a run**: start from a world whose shared container counts every position
     once and is a dict; after ANY calls (`pre`: in particular the calls before the row of bar k, `C01_e2e_run_rows`) the only guards left
     are "the three `get_market_balance` calls return" and "the prices are there" — then the row's net value is the independent valuation,
